@@ -111,7 +111,7 @@ func init() {
 			{Name: "packed", Run: c13Packed},
 			{Name: "random", TShards: 2, Run: c13Random},
 			{Name: "bytes", Run: c13Bytes},
-			{Name: "longcontext", TShards: 2, Run: func(c *Ctx) {
+			{Name: "longcontext", QShards: 4, TShards: 10, Run: func(c *Ctx) {
 				longContextPanics(c, 0, "ACGTacgt", []byte{'N', 'U', 'u', '@', 0, 0xff, 'B', 0x80, '`'}, map[string]func([]byte){
 					"DNATo2Bit": func(s []byte) { sequtil.DNATo2Bit(nil, s) }})
 			}},
@@ -133,7 +133,7 @@ func init() {
 			{Name: "panics", Run: c14Panics},
 			{Name: "aminoname", Run: c14AminoName},
 			{Name: "framepanics", Run: c14FramePanics},
-			{Name: "longcontext", TShards: 2, Run: func(c *Ctx) {
+			{Name: "longcontext", QShards: 4, TShards: 10, Run: func(c *Ctx) {
 				longContextPanics(c, 0, "ACGTacgt", []byte{'N', 'U', '@', 0, 0xff, 0x80}, map[string]func([]byte){
 					"Translate":              func(s []byte) { sequtil.Translate(nil, append(append([]byte{}, s...), "AA"[:(3-len(s)%3)%3]...)) },
 					"TranslateReadingFrames": func(s []byte) { sequtil.TranslateReadingFrames(s) }})
@@ -908,6 +908,40 @@ func longContextPanics(c *Ctx, idx0 int64, valid string, invalid []byte, calls m
 			}
 			k.Evals(int64(len(fills)*len(invalid)*l - 1))
 			k.Nontrivial([]byte(fmt.Sprint("longctx", l, valid)))
+		})
+		idx++
+	}
+	// The same over sequences far longer than any block a vectorised or chunked
+	// implementation works in (4 KiB, 8 KiB, 3072 codons, 64 KiB …): one invalid
+	// byte at EVERY index of a random valid sequence, the invalid bytes in rotation.
+	long := []int{1000, 4100, 9216, 12301, 20000}
+	if c.Thorough {
+		long = append(long, 3000, 8193, 16390, 18432, 30000, 40000, 66000)
+	}
+	for _, l := range long {
+		c.Case(idx, func(k *K) {
+			r := k.Rand()
+			fill := randSeq(r, []byte(valid), l)
+			s := make([]byte, l)
+			for p := 0; p < l; p++ {
+				copy(s, fill)
+				b := invalid[p%len(invalid)]
+				s[p] = b
+				for name, call := range calls {
+					if !expectPanic(func() { call(s) }) {
+						k.Input("length", l)
+						k.Input("byte", b)
+						k.Input("index", p)
+						k.Input("seq", s)
+						k.Failf("missing-panic", "%s: byte %q at index %d of an otherwise valid sequence of %d bases did not cause a panic", name, b, p, l)
+						return
+					}
+				}
+				k.Count("long_context_panics", int64(len(calls)))
+			}
+			k.Count("long_context_sequences_over_1000", 1)
+			k.Evals(int64(l - 1))
+			k.Nontrivial([]byte(fmt.Sprint("longctx-long", l, valid)))
 		})
 		idx++
 	}
